@@ -29,26 +29,25 @@ class ExtractError(Exception):
     pass
 
 
+def lean_chr(ch: str) -> str:
+    o = ord(ch)
+    if ch == "\\":
+        return "'\\\\'"
+    if ch == "'":
+        return "'\\''"
+    if ch == "\n":
+        return "'\\n'"
+    if ch == "\t":
+        return "'\\t'"
+    if 32 <= o <= 126:
+        return f"'{ch}'"
+    return f"(Char.ofNat {o})"
+
+
 def lean_str(s: str) -> str:
-    out = ['"']
-    for ch in s:
-        o = ord(ch)
-        if ch == "\\":
-            out.append("\\\\")
-        elif ch == '"':
-            out.append('\\"')
-        elif ch == "\n":
-            out.append("\\n")
-        elif ch == "\t":
-            out.append("\\t")
-        elif ch == "\r":
-            out.append("\\r")
-        elif 32 <= o <= 126:
-            out.append(ch)
-        else:
-            out.append("\\u{%x}" % o)
-    out.append('"')
-    return "".join(out)
+    """a Python str as a Lean `List Char` literal (String literals are far too slow to unfold in
+    the kernel: `String.toList` of a 1 100-character literal takes minutes under `decide +kernel`)"""
+    return "[" + ", ".join(lean_chr(c) for c in s) + "]"
 
 
 def lean_list(items, f=lean_str) -> str:
@@ -133,7 +132,7 @@ def extract_versions(emit):
             raise ExtractError(f"{name}: expected a VERBOSE pattern")
         if cre.flags & (re.IGNORECASE | re.MULTILINE | re.DOTALL):
             raise ExtractError(f"{name}: unexpected flags {cre.flags}")
-        emit(f"def {name} : String := {lean_str(cre.pattern)}")
+        emit(f"def {name} : List Char := {lean_str(cre.pattern)}")
     # which parse variants each class actually uses for optional_minor_and_patch (extensional)
     def accepts(cls, s, **kw):
         try:
@@ -142,9 +141,9 @@ def extract_versions(emit):
         except ValueError:
             return False
 
-    emit(f"def ver_base_slots : List String := {lean_list(B.__slots__)}")
-    emit(f"def ver_sem_slots : List String := {lean_list(S.__slots__)}")
-    emit(f"def ver_pkg_slots : List String := {lean_list(P.__slots__)}")
+    emit(f"def ver_base_slots : List (List Char) := {lean_list(B.__slots__)}")
+    emit(f"def ver_sem_slots : List (List Char) := {lean_list(S.__slots__)}")
+    emit(f"def ver_pkg_slots : List (List Char) := {lean_list(P.__slots__)}")
 
     # valid parts of next_version, by probing
     def valid_parts(cls, sample):
@@ -161,17 +160,17 @@ def extract_versions(emit):
                 out.append(part)
         return out
 
-    emit(f"def ver_base_parts : List String := {lean_list(valid_parts(B, '1.2.3'))}")
-    emit(f"def ver_sem_parts : List String := {lean_list(valid_parts(S, '1.2.3'))}")
-    emit(f"def ver_pkg_parts : List String := {lean_list(valid_parts(P, '1.2.3'))}")
+    emit(f"def ver_base_parts : List (List Char) := {lean_list(valid_parts(B, '1.2.3'))}")
+    emit(f"def ver_sem_parts : List (List Char) := {lean_list(valid_parts(S, '1.2.3'))}")
+    emit(f"def ver_pkg_parts : List (List Char) := {lean_list(valid_parts(P, '1.2.3'))}")
 
     # _extract_letter: its regexes and the spelling table
     fn = find_func(tree, "_extract_letter", "BaseVersion")
     pats = [p for m, p in re_call_patterns(fn) if m == "match"]
     if len(pats) != 2:
         raise ExtractError(f"_extract_letter: expected 2 re.match patterns, found {pats}")
-    emit(f"def extract_letter_regex : String := {lean_str(pats[0])}")
-    emit(f"def extract_letter_implicit_regex : String := {lean_str(pats[1])}")
+    emit(f"def extract_letter_regex : List Char := {lean_str(pats[0])}")
+    emit(f"def extract_letter_implicit_regex : List Char := {lean_str(pats[1])}")
     table = None
     for n in ast.walk(fn):
         if isinstance(n, ast.For) and isinstance(n.iter, ast.Tuple):
@@ -181,21 +180,21 @@ def extract_versions(emit):
                 pass
     if not table or not all(isinstance(t, tuple) and all(isinstance(x, str) for x in t) for t in table):
         raise ExtractError("_extract_letter: spelling table not found")
-    emit("def extract_letter_table : List (List String) := " + lean_list(table, lambda t: lean_list(t)))
+    emit("def extract_letter_table : List (List (List Char)) := " + lean_list(table, lambda t: lean_list(t)))
 
     # increment: the regex it compiles
     fn = find_func(tree, "increment")
     pats = [p for m, p in re_call_patterns(fn)]
     if len(pats) != 1:
         raise ExtractError("increment: regex not found")
-    emit(f"def increment_regex : String := {lean_str(pats[0])}")
+    emit(f"def increment_regex : List Char := {lean_str(pats[0])}")
 
     # __extract_local split regex
     fn = find_func(tree, "__extract_local", "VersionPackage")
     pats = [p for m, p in re_call_patterns(fn)]
     if len(pats) != 1:
         raise ExtractError("__extract_local: regex not found")
-    emit(f"def extract_local_split : String := {lean_str(pats[0])}")
+    emit(f"def extract_local_split : List Char := {lean_str(pats[0])}")
 
     # match: operator tables
     fn = find_func(tree, "__validate_expr_match", "BaseVersion")
@@ -209,12 +208,12 @@ def extract_versions(emit):
     one = [t for t in tuples if all(len(x) == 1 for x in t)]
     if len(two) != 1 or len(one) != 1:
         raise ExtractError("__validate_expr_match: unexpected operator tuples")
-    emit(f"def match_ops2 : List String := {lean_list(two[0])}")
-    emit(f"def match_ops1 : List String := {lean_list(one[0])}")
+    emit(f"def match_ops2 : List (List Char) := {lean_list(two[0])}")
+    emit(f"def match_ops1 : List (List Char) := {lean_list(one[0])}")
     digit_strs = [s for s in str_consts(fn) if s and set(s) <= set("0123456789") and len(s) >= 2]
     if len(digit_strs) != 1:
         raise ExtractError("__validate_expr_match: bare-version digit set not found")
-    emit(f"def match_bare_first : String := {lean_str(digit_strs[0])}")
+    emit(f"def match_bare_first : List Char := {lean_str(digit_strs[0])}")
     fn = find_func(tree, "match", "BaseVersion")
     poss = None
     for n in ast.walk(fn):
@@ -228,7 +227,7 @@ def extract_versions(emit):
     if poss is None:
         raise ExtractError("match: possibilities table not found")
     emit(
-        "def match_possibilities : List (String × List Int) := "
+        "def match_possibilities : List (List Char × List Int) := "
         + lean_list(poss.items(), lambda kv: f"({lean_str(kv[0])}, [" + ", ".join(f"({int(x)} : Int)" for x in kv[1]) + "])")
     )
     tilde = None
@@ -240,7 +239,7 @@ def extract_versions(emit):
                 break
     if tilde is None:
         raise ExtractError("match: tilde operator tuple not found")
-    emit(f"def match_tilde_ops : List String := {lean_list(tilde)}")
+    emit(f"def match_tilde_ops : List (List Char) := {lean_list(tilde)}")
 
 
 SECTIONS = [("versions", extract_versions)]
